@@ -443,7 +443,7 @@ func checkC15Stmt(c *c15StmtCase) (msg string, nontrivial bool) {
 	for i, f := range sel.Fields {
 		fieldTexts[i] = f.String()
 		if i < len(c.Stmt.Fields) && c.Stmt.Fields[i].Alias != "" {
-			fieldTexts[i] += " as " + c.Stmt.Fields[i].Alias
+			fieldTexts[i] += " as " + lib.SpellName(c.Stmt.Fields[i].Alias)
 		}
 	}
 	w1 := sel.Where.Expr.String()
